@@ -380,6 +380,16 @@ func newRealResWith(cfg resCfg, clock *simClock, rng io.Reader) *realRes {
 	return r
 }
 
+// written is the message handed to the write. For an odd delta the library's own interceptor style is used (see writeOpts):
+// the message carries the delta itself.
+func (o wop) written() *testproto.TestAllTypes {
+	m := o.Val.pb()
+	if o.HasDelta && o.Delta%2 != 0 {
+		m.DefaultInt64 = o.Delta
+	}
+	return m
+}
+
 var errCheck = status.Error(codes.OutOfRange, "expected check failed")
 
 func (o wop) writeOpts(res *wres) []resource.WriteOption {
@@ -417,7 +427,14 @@ func (o wop) writeOpts(res *wres) []resource.WriteOption {
 			if t, ok := old.(*testproto.TestAllTypes); ok && t != nil {
 				n = t.DefaultInt64
 			}
-			change.(*testproto.TestAllTypes).DefaultInt64 = n + d
+			c := change.(*testproto.TestAllTypes)
+			if d%2 == 0 {
+				c.DefaultInt64 = n + d
+				return
+			}
+			// the style of the library's own delta interceptors (countpb: `tValue.Added += tOld.Added`): the written message
+			// carries the delta and the stored value is folded into it in place
+			c.DefaultInt64 += n // (apply put the delta there)
 		}))
 	}
 	if o.After {
@@ -500,15 +517,15 @@ func (r *realRes) apply(o wop) wres {
 	}
 	switch o.Kind {
 	case opSet:
-		p, err := r.val.Set(o.Val.pb(), o.writeOpts(&res)...)
+		p, err := r.val.Set(o.written(), o.writeOpts(&res)...)
 		res.Code = errCode(err)
 		setMsg(p)
 	case opAdd:
-		p, err := r.col.Add(o.ID, o.Val.pb(), o.writeOpts(&res)...)
+		p, err := r.col.Add(o.ID, o.written(), o.writeOpts(&res)...)
 		res.Code = errCode(err)
 		setMsg(p)
 	case opUpdate:
-		p, err := r.col.Update(o.ID, o.Val.pb(), o.writeOpts(&res)...)
+		p, err := r.col.Update(o.ID, o.written(), o.writeOpts(&res)...)
 		res.Code = errCode(err)
 		setMsg(p)
 	case opDelete:
